@@ -333,6 +333,12 @@ func (am *Machine) handleStateDkgMasterKeyAwaitConfirmations(o *client.Operation
 		if err = json.Unmarshal(entry.DkgResponse, &entryResponses); err != nil {
 			return fmt.Errorf("failed to unmarshal responses: %w", err)
 		}
+		// what a participant published as its responses is arbitrary JSON
+		for _, r := range entryResponses {
+			if r == nil || r.Response == nil {
+				return fmt.Errorf("malformed response in the responses of %s", entry.Username)
+			}
+		}
 		dkgInstance.StoreResponses(entry.Username, entryResponses)
 	}
 
